@@ -221,6 +221,43 @@ def printer(I: pai.Interp, **opts) -> pai.Inst:
     return I.instantiate("pprint.PrettyPrinter", [], opts)
 
 
+_FMT: dict = {}
+
+
+def fmt_qual(repo) -> str:
+    """The block formatter of the pretty printer, found by role: the one method of PrettyPrinter that
+    pprint() calls on self and that calls itself (the recursion over nested blocks).  Its name and the names
+    of its parameters are the repository's business."""
+    hit = _FMT.get(id(repo))
+    if hit is not None:
+        return hit
+    meths = repo.module("pprint").methods.get("PrettyPrinter")
+    if meths is None or "pprint" not in meths:
+        raise AnalysisError("anchor vanished: pprint.PrettyPrinter.pprint")
+
+    def self_calls(fn):
+        return {c.func.attr for c in ast.walk(fn) if isinstance(c, ast.Call) and isinstance(c.func, ast.Attribute) and isinstance(c.func.value, ast.Name) and c.func.value.id == "self"}
+
+    def mangled(n):
+        return n
+
+    cands = [m for m in sorted(self_calls(meths["pprint"])) if m in meths and m in self_calls(meths[m])]
+    if len(cands) != 1:
+        raise AnalysisError(f"anchor vanished: the recursive block formatter pprint() calls (candidates {cands})")
+    _FMT[id(repo)] = f"pprint.PrettyPrinter.{cands[0]}"
+    return _FMT[id(repo)]
+
+
+def fmt_level_kw(repo, level) -> dict:
+    """{name of the formatter's nesting-level parameter: level} - the second parameter after self (it may be
+    keyword-only, so it is always passed by name)."""
+    fn = repo.func(fmt_qual(repo))
+    names = [a.arg for a in fn.args.posonlyargs + fn.args.args + fn.args.kwonlyargs][1:]
+    if len(names) < 2:
+        raise AnalysisError(f"anchor vanished: {fmt_qual(repo)} no longer takes (block, level)")
+    return {names[1]: level}
+
+
 # ---------------------------------------------------------------------------------------------
 # the retagging oracle used by the LALR sentence checks
 # ---------------------------------------------------------------------------------------------
